@@ -282,10 +282,15 @@ class C12(Check):
         if binary is None:
             raise RuntimeError("emulator build failed: " + err[-1500:])
         sizes = [0, 9, 300, 1400, 1900, 2100, 3000, 4000] if self.tier == "quick" else [0, 1, 9, 127, 128, 300, 1000, 1400, 1850, 1900, 1950, 2048, 2100, 2500, 3000, 3500, 4000]
+        # QoS flow descriptions (after the PDU address) that push the NAS message and the NGAP message beyond 16383 octets:
+        # their length determinants are then fragmented (X.691 10.9.3.8)
+        flows = {300: 16300, 1400: 20000, 4000: 12000} if self.tier == "quick" else {9: 16000, 300: 16300, 1400: 20000, 1900: 33000, 4000: 12000, 3000: 50000}
         cfgs = []
         for i, q in enumerate(sizes):
             c = proc.default_cfg(self.rng.fork("est%d" % i) if i else None, counts=[1, 1, 0, 0, 0])
             c["qos_lens"] = [q]
+            if q in flows:
+                c["flow_desc_len"] = flows[q]
             cfgs.append(c)
         with cf.ThreadPoolExecutor(max_workers=8) as ex:
             runs = list(ex.map(lambda c: proc.run(binary, c, self.seed + c["qos_lens"][0]), cfgs))
@@ -302,9 +307,9 @@ class C12(Check):
             with self._lock:
                 self.cov["evaluations"] += 1
                 self._distinct.add("establish-%d" % q)
-            rows.append({"qos_rules_octets": q, "rc": r["rc"], "verdict": r["verdict"], "reported": reported, "assigned": exp})
+            rows.append({"qos_rules_octets": q, "flow_descriptions_octets": c.get("flow_desc_len", 0), "rc": r["rc"], "verdict": r["verdict"], "reported": reported, "assigned": exp})
             if r["rc"] != 0 or not exp or reported != exp:
-                self.violation({"theorem_or_stream": "process: EstablishPDU against the reference SMF", "input": {"qos_rules_octets": q, "imsi": c["imsi"]},
+                self.violation({"theorem_or_stream": "process: EstablishPDU against the reference SMF", "input": {"qos_rules_octets": q, "flow_descriptions_octets": c.get("flow_desc_len", 0), "imsi": c["imsi"]},
                                 "observed": {"rc": r["rc"], "verdict": r["verdict"], "reported": reported, "stdout": r["stdout"][-500:]}, "expected": {"assigned": exp},
                                 "why": "the emulator did not report the assigned UE address / TEID / UPF address for a well-formed setup request"})
         self.cov["establish"] = rows
